@@ -69,6 +69,7 @@ impl RqCfg {
             "cl0" => b = b.header("content-length", "0"),
             "cl2" => b = b.header("content-length", "2"),
             "chunked" => b = b.header("transfer-encoding", "chunked"),
+            f if f.starts_with("cl:") => b = b.header("content-length", &f[3..]),
             _ => {}
         }
         b = b.header("x-note", "verif");
